@@ -1,8 +1,8 @@
 CONSTANTS
   MaxReq = 3
-  Kinds <- AllKinds
+  Kinds <- EnvQuick
   GapKinds <- Gaps01
-  UniformGaps = FALSE
+  UniformGaps = TRUE
   PipeCap = 2
   BigChunks = 3
   BreakOutAfterPanic = TRUE
